@@ -63,9 +63,14 @@ impl<'a> ParserCallbacks<'a> for Parser<'a> {
         (t, s)
     }
     fn create_diagnostic(&self, span: Span, message: String) -> Self::Diagnostic { Diagnostic { span, msg: message, syntax: true } }
+    // user-defined skipping: in half of the runs one ordinary token kind is skipped by the predicate
+    fn predicate_skip(&self, token: Token) -> bool { (PATTERN.load(Ordering::SeqCst) >> 16) & 1 == 1 && token == Token::@PSKIP@ }
 @CALLBACKS@
 }
 
+// Only the statically skipped kinds: which tokens `predicate_skip` skipped is not recorded in the tree
+// (the predicate is consulted at skip positions only, e.g. not for trailing input), so the
+// "no rule node starts/ends with a skipped token" clause of C02 is checked for the static kinds.
 fn is_skip(t: Token) -> bool { matches!(t, Token::Error @SKIPS@) }
 
 struct Fail(String);
@@ -144,7 +149,8 @@ fn main() {
         }
     });
     let mut run = |src: &str| -> bool {
-        for pat in 0..npat {
+        for pat0 in 0..(2 * npat) {
+            let pat = (pat0 % npat) | ((pat0 / npat) << 16);
             for which in 0..nentries {
                 PATTERN.store(pat, Ordering::SeqCst);
                 CALLS.store(0, Ordering::SeqCst);
@@ -227,6 +233,8 @@ def build_harness(gen_text, outdir):
     src = src.replace("@TOKENS@", ", ".join(toks))
     src = src.replace("@CHARMAP@", charmap)
     src = src.replace("@CALLBACKS@", "\n".join(cbs))
+    nonskip = [t for t in usable if t not in skips]
+    src = src.replace("@PSKIP@", nonskip[-1] if nonskip else "Error")
     src = src.replace("@SKIPS@", "".join(" | Token::%s" % s for s in skips))
     src = src.replace("@ENTRIES@", ent)
     src = src.replace("@ALPHACHARS@", "".join(cmap.values()) + errch)
